@@ -106,6 +106,9 @@ class Group(SharedRegistryObject):
         d = self._REGISTRY._groups
         for name in self._used_by:
             d[name].invalidate_members()
+        # Systems memoise the members of the groups they use as well.
+        for system in getattr(self._REGISTRY, "_systems", {}).values():
+            system.invalidate_members()
 
     def iter_used_groups(self) -> Generator[tuple[str, Group]]:
         pending = set(self._used_groups)
